@@ -52,6 +52,15 @@ pub fn siqs(
     tpool: Option<&rayon::ThreadPool>,
 ) -> Result<Vec<Uint>, UnexpectedFactor> {
     let (norig, n) = (n, n * Uint::from(k));
+    // Like MPQS, we cannot use SIQS for numbers above 448 bits:
+    // polynomial coefficients and values must fit in 256 bits
+    // (and it would cost years of CPU anyway).
+    if n.bits() > 448 {
+        if prefs.verbose(Verbosity::Info) {
+            eprintln!("Number {n} too large for quadratic sieve!");
+        }
+        return Ok(vec![]);
+    }
     let use_double = prefs.use_double.unwrap_or(n.bits() > 256);
     // Choose factor base. Sieve twice the number of primes
     // (n will be a quadratic residue for only half of them)
